@@ -836,7 +836,8 @@ try
 		  ++count;
 	      }
 
-	    if (show_count)
+	    // N.B. --quiet suppresses all normal output, count included.
+	    if (show_count && verbosity >= 0)
 	      {
 		if (with_header)
 		  std::cout << header << ":";
